@@ -209,48 +209,122 @@ def tgen_int_valued(a):
     return bool(np.all(d.real == np.round(d.real)) and np.all(d.imag == np.round(d.imag)))
 
 
+def uniform_leg(rng, yastn, cfg, sym, s):
+    """a leg holding a full orbit of charges with one dimension (so that a charged square matrix exists): Z2, Z3, Z2xU1"""
+    D = rng.randint(1, 3)
+    if sym == "Z2":
+        return yastn.Leg(cfg, s=s, t=(0, 1), D=(D, D)), [(1,)]
+    if sym == "Z3":
+        return yastn.Leg(cfg, s=s, t=(0, 1, 2), D=(D, D, D)), [(1,), (2,)]
+    if sym == "Z2xU1":
+        us = sorted(set(rng.randint(-1, 1) for _ in range(2)))
+        Ds = {u: rng.randint(1, 3) for u in us}
+        ts = [(z, u) for z in (0, 1) for u in us]
+        return yastn.Leg(cfg, s=s, t=ts, D=[Ds[u] for (_, u) in ts]), [(1, 0)]
+    return None, []
+
+
 def do_eig(ctx, yastn, rng, cfg, sym, cplx, which):
+    """eigh / eig of a square matrix given in an arbitrary leg order (lazy or materialised), with rows/columns fused alike or
+    differently (meta), any sU, nU (eig, also for charged input), any position of the new leg"""
     k = rng.randint(1, 2)
-    legs = [tgen.rand_leg(rng, cfg, sym, max_sectors=3, max_dim=3) for _ in range(k)]
-    full = legs + [l.conj() for l in legs]
-    a = yastn.rand(cfg, legs=full, n=cfg.sym.zero(), dtype="complex128" if cplx else "float64")
-    axes = (tuple(range(k)), tuple(range(k, 2 * k)))
-    if which == "eigh":
-        a = a + a.transpose(axes=axes[1] + axes[0]).conj()
-    if rng.random() < 0.4 and k == 2:  # lazily permuted input, same bipartition expressed through axes
-        p = [1, 0, 3, 2]
-        a = a.transpose(axes=tuple(p))
-    sU = rng.choice([1, -1])
-    case = describe(a, axes, sU=sU, which=which)
-    ctx.case(case, nontrivial=len(a.struct.t) >= 2)
-    scale = float(a.norm())
-    if which == "eigh":
-        S, U = yastn.linalg.eigh(a, axes=axes, sU=sU)
-        if S.n != cfg.sym.zero() or U.n != cfg.sym.zero() or not S.isdiag:
-            ctx.fail("oracle", "c04:eigh:structure", f"eigh: S.n={S.n} U.n={U.n} diag={S.isdiag}", case=case, concrete=True)
-        new_leg_checks(ctx, yastn, "U", U, U.ndim - 1, sU, case, "eigh:U")
-        rec = yastn.tensordot(U @ S, U, axes=(U.ndim - 1, U.ndim - 1), conj=(0, 1))
-        if float((rec - a).norm()) > TOL * max(1.0, scale) * 10:
-            ctx.fail("oracle", "c04:eigh:reconstruct", f"|U S U^+ - a| = {float((rec - a).norm()):.3e}", case=case, concrete=True)
-        UU = yastn.tensordot(U, U, axes=(tuple(range(k)), tuple(range(k))), conj=(1, 0))
-        if float((UU - yastn.eye(cfg, legs=UU.get_legs(), isdiag=False)).norm()) > TOL * 10 * max(1, UU.get_shape(0)):
-            ctx.fail("oracle", "c04:eigh:U-unitary", "U^+ U != 1", case=case, concrete=True)
-        ev = np.sort(np.concatenate([np.real(np.asarray(S[t])) for t in S.struct.t]))
-        d = a.to_numpy(); m = d.reshape(int(np.prod(d.shape[:k], dtype=np.int64)), -1)
-        if not np.allclose(ev, np.linalg.eigvalsh(m), atol=1e-8 * max(1.0, scale)):
-            ctx.fail("oracle", "c04:eigh:spectrum", "eigenvalues differ from numpy.linalg.eigvalsh of the dense matrix", case=case, concrete=True)
+    n = cfg.sym.zero()
+    charged = which == "eig" and rng.random() < 0.35 and sym in ("Z2", "Z3", "Z2xU1")
+    if charged:
+        k = 1
+        l0, ns = uniform_leg(rng, yastn, cfg, sym, rng.choice([1, -1]))
+        legs = [l0]
+        n = rng.choice(ns)
     else:
-        try:
-            U, S, V = yastn.linalg.eig(a, axes=axes, sU=sU)
-        except TypeError:
-            ctx.count("eig-api-mismatch")
-            return
-        rec = U @ S @ V
-        if float((rec - a).norm()) > 1e-8 * max(1.0, scale):
-            ctx.fail("oracle", "c04:eig:reconstruct", f"|U S V - a| = {float((rec - a).norm()):.3e}", case=case, concrete=True)
-        VU = yastn.tensordot(V, U, axes=(tuple(range(1, k + 1)), tuple(range(k))))
-        if float((VU - yastn.eye(cfg, legs=VU.get_legs(), isdiag=False)).norm()) > 1e-8 * max(1, VU.get_shape(0)):
-            ctx.fail("oracle", "c04:eig:biorthonormal", "V @ U != 1", case=case, concrete=True)
+        legs = [tgen.rand_leg(rng, cfg, sym, max_sectors=3, max_dim=3) for _ in range(k)]
+    full = legs + [l.conj() for l in legs]
+    M0 = yastn.rand(cfg, legs=full, n=n, dtype="complex128" if cplx else "float64")
+    if M0.size == 0:
+        ctx.count("eig:empty"); return
+    rows0, cols0 = tuple(range(k)), tuple(range(k, 2 * k))
+    if which == "eigh":
+        M0 = M0 + M0.transpose(axes=cols0 + rows0).conj()
+    # fusion state: rows and columns fused alike or differently
+    fstate = rng.choice(["none", "none", "meta-rows", "meta-cols", "meta-both", "hard-both"]) if k == 2 else "none"
+    if fstate == "meta-rows":
+        M, rows, cols = M0.fuse_legs(axes=((0, 1), 2, 3), mode="meta"), (0,), (1, 2)
+    elif fstate == "meta-cols":
+        M, rows, cols = M0.fuse_legs(axes=(0, 1, (2, 3)), mode="meta"), (0, 1), (2,)
+    elif fstate == "meta-both":
+        M, rows, cols = M0.fuse_legs(axes=((0, 1), (2, 3)), mode="meta"), (0,), (1,)
+    elif fstate == "hard-both":
+        M, rows, cols = M0.fuse_legs(axes=((0, 1), (2, 3)), mode="hard"), (0,), (1,)
+    else:
+        M, rows, cols = M0, rows0, cols0
+    # arbitrary leg order, pending or materialised
+    p = list(range(M.ndim)); rng.shuffle(p)
+    a = M.transpose(axes=tuple(p))
+    lazy = rng.random() < 0.6
+    if not lazy:
+        a = a.consume_transpose()
+    axes = (tuple(p.index(j) for j in rows), tuple(p.index(j) for j in cols))
+    sU = rng.choice([1, -1])
+    nU = rng.random() < 0.5
+    nr, nc = len(rows), len(cols)
+    Uaxis = rng.choice([-1, -1, 0, rng.randint(0, nr)])
+    Vaxis = rng.choice([0, 0, -1, rng.randint(0, nc)])
+    case = describe(a, axes, sU=sU, which=which, nU=nU, Uaxis=Uaxis, Vaxis=Vaxis, fstate=fstate, lazy=lazy, perm=p, charged=bool(charged))
+    ctx.case(case, nontrivial=len(a.struct.t) >= 2)
+    ctx.count(f"eig:fstate:{fstate}"); ctx.count(f"eig:lazy:{lazy}"); ctx.count(f"eig:charged:{bool(charged)}")
+    ctx.count("eig:perm-involutive:" + str(all(p[p[i]] == i for i in range(len(p)))))
+    scale = float(M.norm())
+    n0 = cfg.sym.zero()
+
+    def unf(x):   # undo the (one level of) fusion of rows / columns
+        return x.unfuse_legs(axes=tuple(range(x.ndim))) if fstate != "none" else x
+
+    try:
+        if which == "eigh":
+            S, U = yastn.linalg.eigh(a, axes=axes, sU=sU, Uaxis=Uaxis)
+            V = None
+        else:
+            U, S, V = yastn.linalg.eig(a, axes=axes, sU=sU, nU=nU, Uaxis=Uaxis, Vaxis=Vaxis)
+    except Exception as e:  # noqa: BLE001
+        ctx.fail("oracle", f"c04:{which}:raises", f"{which} of a valid square matrix raised {type(e).__name__}: {e}", case=case, concrete=True)
+        return
+    try:
+        upos = Uaxis % (nr + 1)
+        new_leg_checks(ctx, yastn, "U", U, upos, sU, case, f"{which}:U")
+        U = U.moveaxis(source=upos, destination=-1)
+        if V is not None:
+            vpos = Vaxis % (nc + 1)
+            new_leg_checks(ctx, yastn, "V", V, vpos, -sU, case, f"{which}:V")
+            V = V.moveaxis(source=vpos, destination=0)
+        if not S.isdiag or S.n != n0 or tuple(S.get_signature()) != (-sU, sU):
+            ctx.fail("oracle", f"c04:{which}:S-structure", f"S: diag={S.isdiag} n={S.n} s={S.get_signature()} (requested sU={sU})", case=case, concrete=True)
+        if which == "eigh":
+            if U.n != n0:
+                ctx.fail("oracle", "c04:eigh:structure", f"eigh: U.n={U.n}", case=case, concrete=True)
+            rec = unf(yastn.tensordot(U @ S, U, axes=(U.ndim - 1, U.ndim - 1), conj=(0, 1)))
+            if rec.ndim != M0.ndim or float((rec - M0).norm()) > TOL * max(1.0, scale) * 10:
+                ctx.fail("oracle", "c04:eigh:reconstruct", f"|U S U^+ - a| = {float((rec - M0).norm()) if rec.ndim == M0.ndim else 'rank mismatch'}", case=case, concrete=True)
+            UU = yastn.tensordot(U, U, axes=(tuple(range(nr)), tuple(range(nr))), conj=(1, 0))
+            if float((UU - yastn.eye(cfg, legs=UU.get_legs(), isdiag=False)).norm()) > TOL * 10 * max(1, UU.get_shape(0)):
+                ctx.fail("oracle", "c04:eigh:U-unitary", "U^+ U != 1", case=case, concrete=True)
+            ev = np.sort(np.concatenate([np.real(np.asarray(S[t])) for t in S.struct.t]))
+            d = M0.to_numpy(); m = d.reshape(int(np.prod(d.shape[:k], dtype=np.int64)), -1)
+            if ev.shape != (m.shape[0],) or not np.allclose(ev, np.linalg.eigvalsh(m), atol=1e-8 * max(1.0, scale)):
+                ctx.fail("oracle", "c04:eigh:spectrum", "eigenvalues differ from numpy.linalg.eigvalsh of the dense matrix", case=case, concrete=True)
+        else:
+            want = (tuple(a.n), n0) if nU else (n0, tuple(a.n))
+            if (tuple(U.n), tuple(V.n)) != (tuple(want[0]), tuple(want[1])):
+                ctx.fail("oracle", "c04:eig:charge-carrier", f"eig(nU={nU}) of a tensor of charge {a.n}: U.n={U.n}, V.n={V.n}", case=case, concrete=True)
+            rec = U @ S @ V
+            if rec.ndim != M.ndim or float((rec - M).norm()) > 1e-8 * max(1.0, scale):
+                ctx.fail("oracle", "c04:eig:reconstruct", f"|U S V - a| = {float((rec - M).norm()) if rec.ndim == M.ndim else 'rank mismatch'}", case=case, concrete=True)
+            if tuple(a.n) == tuple(n0):
+                Vu, Uu = unf(V), unf(U)   # rows and columns may be fused differently: compare on the original legs
+                VU = yastn.tensordot(Vu, Uu, axes=(tuple(range(1, Vu.ndim)), tuple(range(Uu.ndim - 1))))
+                if float((VU - yastn.eye(cfg, legs=VU.get_legs(), isdiag=False)).norm()) > 1e-8 * max(1, VU.get_shape(0)):
+                    ctx.fail("oracle", "c04:eig:biorthonormal", "V @ U != 1", case=case, concrete=True)
+    except Exception as e:  # noqa: BLE001
+        # the factors cannot even be combined as promised (wrong legs / rank / charges)
+        ctx.fail("oracle", f"c04:{which}:factors-unusable", f"checking the factors of {which} raised {type(e).__name__}: {e}", case=case, concrete=True)
 
 
 def struct_correspondence(ctx, yastn, which, a, axes, Um, Vm, opts, case):
